@@ -189,8 +189,8 @@ func (msg Message) Generate(w io.Writer, settings GenerateSettings) {
 	msg.generateEncodeBebop(ew, settings, fields)
 	msg.generateDecodeBebop(ew, settings, fields)
 	msg.generateSize(ew, settings, fields)
-	isEmpty := len(msg.Fields) == 0
-	writeWrappers(ew, msg.Name, isEmpty, settings)
+	// even a message without fields has a length prefix and a terminator on the wire
+	writeWrappers(ew, msg.Name, false, settings)
 }
 
 func writeMessageFieldUnmarshaller(name string, typ FieldType, w *iohelp.ErrorWriter, settings GenerateSettings, depth int) {
